@@ -79,7 +79,9 @@ SameRecordFailed(b, a) ==
                           THEN {"same_region_numbering"} ELSE {}))
     \cup (IF ~(Numbered(a.protos) /\ Numbered(a.subs) /\ Numbered(a.cands) /\ Numbered(a.regions)) THEN {"numbered_1_to_n_in_record_order"} ELSE {})
 
-(* one round trip: [exc, after, out1, out2]; out1 / out2 identify the bytes of the first and of the second output *)
+(* one round trip rt == [exc, after, out1, out2]; out1 / out2 identify the bytes of the first and of the second output.
+   The actions RoundTripGB / RoundTripJSON (Persist_MC) are stuttering steps: AbstractRecord' = AbstractRecord and
+   Output' = Output when applied again; an observed round trip is accepted iff it is such a step, i.e. iff this set is empty *)
 RoundTripFailed(before, rt) ==
     IF rt.exc # "" THEN {"reloads:" \o rt.exc}
     ELSE SameRecordFailed(before, rt.after)
@@ -88,7 +90,7 @@ RoundTripFailed(before, rt) ==
 (* --- C12: the region extract ------------------------------------------------------------------------------ *)
 RegStart(rloc) == OuterStart(rloc)
 RegLen(rloc) == Size(rloc)
-(* a two-part span [s,L)+[0,e) with e = s covers the whole ring *)
+(* inside: every part of the location lies in one piece of the region (a two-part region [s,L)+[0,s) is the whole ring) *)
 Inside(rloc, loc) == Contains(rloc, loc)
 (* the same bases re-expressed on the extract: rotate by -start on the ring of the parent.  A part of a location inside
    the region lies in one piece of the region, so it moves as a whole and lands in 0..n-1; what the origin had cut
@@ -135,7 +137,6 @@ Expected(rec, r) ==
          regionSubs |-> {XSub(rec.L, rloc, rec.subs[k]) : k \in Rng(reg.subs)},
          regionPay |-> reg.xpay]
 
-(* ex == [exc, rec, seq, raw, pairs] : the reloaded region file; parent == the record before writing; pseq its bases *)
 (* the numbers as written in the file (readable even when the file cannot be loaded) *)
 FileNumbersFailed(raw) ==
     (IF Rng(raw.protos) # 1..Len(raw.protos) \/ Rng(raw.cands) # 1..Len(raw.cands) \/ Rng(raw.subs) # 1..Len(raw.subs)
@@ -145,6 +146,7 @@ FileNumbersFailed(raw) ==
                /\ \A i \in DOMAIN raw.cand_protos : Rng(raw.cand_protos[i]) \subseteq Rng(raw.protos))
           THEN {"file_cross_references_use_the_new_numbers"} ELSE {})
 
+(* ex == [exc, rec, seq, raw, pairs] : the reloaded region file; parent == the record before writing; pseq its bases *)
 ExtractFailed(parent, pseq, r, ex) ==
     IF ex.exc # "" THEN {"file_loads_again:" \o ex.exc} \cup FileNumbersFailed(ex.raw)
     ELSE
